@@ -383,10 +383,17 @@ def check_model(ck, chk, lib, gm, seed):
     ck.discard('degenerate')
     return
   d = lib.make_data(m)
+  from vf import mj
   rng = mg.apply_state(lib, m, d, seed, vel_scale=0.5, pos_scale=0.3)
-  for _ in range(int(rng.randint(0, 30))):
-    lib.mj_step(m, d)
-  lib.mj_forward(m, d)
+  try:
+    for _ in range(int(rng.randint(0, 30))):
+      lib.mj_step(m, d)
+    lib.mj_forward(m, d)
+  except mj.MjError as e:
+    # settling only serves to reach states with active constraints; a solver error on a (near-)singular generated model is not
+    # a question about mj_constraintUpdate
+    ck.discard('engine-error-while-settling: ' + str(e)[:40])
+    return
   if lib.warnings() or not np.all(np.isfinite(d.qacc)) or d.nefc == 0:
     ck.discard('warning-or-no-constraints')
     return
@@ -516,12 +523,13 @@ def main(ck):
                           nefc=sysm.nefc, zones=zones, min_boundary_distance=mind) if rep == 0 else None, labels=sorted(set(labels)))
 
   ck.run_hypothesis(test, st.tuples(st.sampled_from(['generic', 'generic', 'boundary', 'boundary', 'scaled']), st.integers(0, 2 ** 31 - 1)),
-                    ck.budget(1300, 125000), name='impl')
+                    ck.budget(1300, 60000), name="impl")
 
   def test_model(case):
     gm, seed = case
     check_model(ck, chk, lib, gm, seed)
   gen = mg.models(min_bodies=2, max_bodies=6, plane=True, spread=0.5, sensors=False, actuators=False,
+                  joint_types=('free', 'hinge', 'slide'),
                   geom_kwargs=dict(condims=(1, 3, 3, 4, 6)),
                   opt_kwargs=dict(cones=('elliptic', 'elliptic', 'pyramidal'), solvers=('CG', 'Newton'), flags=False, islands=None,
                                   integrators=('Euler', 'implicitfast'), jacobians=('dense', 'sparse')))
